@@ -7,7 +7,13 @@ fn main() {
     let src = repo.join("star_frame_cli").join("src");
     let np = src.join("new_project.rs");
     assert!(np.exists(), "{} not found (VERIF_REPO={})", np.display(), repo.display());
-    println!("cargo:rustc-env=HX_CLI_NEW_PROJECT_RS={}", np.display());
+    // a real file module (not `include!`): inner doc comments / attributes at the top of the file stay legal
+    let out = PathBuf::from(env::var("OUT_DIR").unwrap());
+    std::fs::write(
+        out.join("real_mod.rs"),
+        format!("#[allow(dead_code, unused_imports, clippy::all)]\n#[path = {:?}]\nmod real;\n", np.display().to_string()),
+    )
+    .unwrap();
     println!("cargo:rustc-env=HX_CLI_REPO={}", repo.display());
     println!("cargo:rerun-if-env-changed=VERIF_REPO");
     println!("cargo:rerun-if-changed={}", np.display());
